@@ -62,6 +62,8 @@ def run_twin(base_name, pri_units, dunit, libu, dshape, theta, seed, uplan=None)
     out["lnL"] = np.array(joker.marginal_ln_likelihood(data, lib, in_memory=True))
     if uplan is not None:
         # the cache-file path converts the library columns itself (read_batch): same physical problem, same values
+        import astropy.units as u
+
         out["lnL_file"] = np.array(joker.marginal_ln_likelihood(data, lib, n_batches=2))
         # ... and from a user file at ONE file name per worker that every twin overwrites with its own column units
         # (forced collision for anything keyed on the file name)
@@ -70,6 +72,34 @@ def run_twin(base_name, pri_units, dunit, libu, dshape, theta, seed, uplan=None)
         path = os.path.join(seams.fresh_dir("c07"), "library-%d.hdf5" % os.getpid())
         lib.write(path, overwrite=True)
         out["lnL_userfile"] = np.array(joker.marginal_ln_likelihood(data, path))
+        # ... and from a file built in two chunks: first half in the canonical column units, second half APPENDED in this
+        # twin's column units. The append may be refused (then nothing is compared) - if it is accepted, the file must hold the
+        # same physical library
+        h = len(theta) // 2
+        path2 = os.path.join(seams.fresh_dir("c07"), "chunks-%d.hdf5" % os.getpid())
+        pb.make_samples(theta[:h]).write(path2, overwrite=True)
+        try:
+            pb.make_samples(theta[h:], P_unit=libu[0], angle_unit=libu[1], s_unit=libu[2]).write(path2, append=True)
+            appended = True
+        except Exception:
+            appended = False
+        if appended:
+            out["lnL_chunks"] = np.array(joker.marginal_ln_likelihood(data, path2))
+        # the unmarginalised likelihood of hand-built rows (library rows + fixed linear parameters given in the data's unit),
+        # with the uncertainties handed over in ANOTHER unit than the velocities
+        if kw["n_offsets"] == 0:
+            uu = {"km/s": u.km / u.s, "m/s": u.m / u.s, "cm/s": u.cm / u.s}[dunit]
+            eu = u.cm / u.s if dunit != "cm/s" else u.km / u.s
+            data_e = tj.RVData(data.t, data.rv, data.rv_err.to(eu), t_ref=data.t_ref)
+            hb = tj.JokerSamples(t_ref=data.t_ref, poly_trend=kw["poly_trend"], n_offsets=0)
+            for nm in lib.par_names:
+                hb[nm] = lib[nm]
+            f_ = dd["factor"]
+            hb["K"] = (5.0 + 0.25 * np.arange(len(theta))) * f_ * uu
+            hb["v0"] = (1.0 - 0.125 * np.arange(len(theta))) * f_ * uu
+            for i in range(1, kw["poly_trend"]):
+                hb[f"v{i}"] = np.full(len(theta), 0.01 ** i) * f_ * uu / u.day**i
+            out["lnunm"] = np.asarray(hb.ln_unmarginalized_likelihood(data_e), dtype=float)
     if uplan is not None:
         rng = seams.ScriptedGenerator(9, uniform_fn=lambda size, k: uplan[: int(size)])
         j2 = tj.TheJoker(prior, rng=rng)
@@ -133,6 +163,14 @@ def check_base(base_name, di, quick, seed, part, only_priors=None, only=None):
         if not np.allclose(tw["lnL_userfile"], tw["lnL"], rtol=1e-9, atol=1e-9):
             part.violation(case, "a user file (same file name re-written by each twin in its own column units) gives other values than the in-memory path",
                            expected=tw["lnL"], observed=tw["lnL_userfile"])
+            continue
+        if "lnL_chunks" in tw and not np.allclose(tw["lnL_chunks"], tw["lnL"], rtol=1e-9, atol=1e-9):
+            part.violation(case, "a library file extended by a chunk in these column units (append accepted) does not hold the same physical library",
+                           expected=tw["lnL"], observed=tw["lnL_chunks"])
+            continue
+        if "lnunm" in tw and "lnunm" in canon and not np.allclose(tw["lnunm"], canon["lnunm"] - N * np.log(f), rtol=1e-9, atol=1e-7):
+            part.violation(case, "ln_unmarginalized_likelihood (uncertainties given in another unit than the velocities) != canonical value - N ln(unit ratio)",
+                           expected=canon["lnunm"] - N * np.log(f), observed=tw["lnunm"])
             continue
         if not np.allclose(tw["lnL_file"], tw["lnL"], rtol=1e-9, atol=1e-9):
             part.violation(case, "cache-file path and in-memory path disagree for a library stored in these column units",
